@@ -199,6 +199,8 @@ class FsSeam:
         def sim_File(target, mode='r', *a, **kw):
             fault, seam.pending_fault = (seam.pending_fault, None) if mode != 'r' else (None, seam.pending_fault)
             seam.tick('h5open', target=seam.rel(target), mode=mode)
+            if seam.on_io is not None:
+                seam.on_io('h5open')      # (a scheduling point outside any h5py call: no HDF5 lock is held here)
             f = real_file(target, mode, *a, **kw)
             if fault:
                 # HDF5 write faults are injected at the h5py object level (k-th write call fails with OSError), never
